@@ -32,7 +32,7 @@ macro_rules! stats_struct {
 }
 stats_struct!(
     bodies, applies, deliveries, postponed, max_postponed_one_target, nested_replay, skipped_dead, skipped_dead_postponed, optional_taken, optional_skipped, polled_events, polled_in_tree, polled_reactions, payloads, payload_zero_listeners, payload_abort_release, doomed_insts, once_fired, once_retrigger_after_fire, revokes_applied, revoke_mid_dispatch, kills, kill_self, err_returns, excl_bodies, registrations, reg_dead_entity, slot_respawn, max_depth, roots, multi_kind_same_tree, sibling_reorder, frames, guaranteed_gc, guaranteed_poll, a1_ambiguous, ewr_bodies, ewr_nodata_ok, inserts_dead_at_apply, setifneq_equal, setifneq_diff, removal_reinsert_removal, sig_zero, entity_recursive_despawn, fifo_pairs_checked, sys_calls, reactors_per_key_ge7,
-    probes, ev_total, replayed, sys_recursive, acc_ops, single_acc, app_setup_again, bulk_collected, max_bulk, ewr_readd, res_removed, res_trigger_while_absent, excl_flushed_in_body
+    probes, ev_total, replayed, sys_recursive, acc_ops, single_acc, app_setup_again, bulk_collected, max_bulk, ewr_readd, res_removed, res_trigger_while_absent, excl_flushed_in_body, sig_zero_during_gc, sig_moved_into_entity
 );
 
 #[derive(Clone, Debug)]
@@ -80,6 +80,8 @@ struct Ent
     ewr_mask: [u8; 2],
     /// removal events seen since the last poll that consumed one (rare-condition probe)
     removed_since_poll: [u8; 2],
+    /// clones of auto-despawn signals (signal slots) owned by this entity
+    holds: Vec<usize>,
 }
 
 #[derive(Clone, Debug)]
@@ -272,6 +274,10 @@ pub struct Checker<'a>
     fifo: HashMap<((u8, u32), Inst), (u64, bool)>,
     gc_guaranteed_this_step: bool,
     in_direct_step: bool,
+    in_gc: bool,
+    /// clones held by the harness (the rest of a signal's count is owned by entities)
+    sig_harness: [usize; 4],
+    deferred_bail: Option<String>,
     /// bulk auto-despawn scenario: entities whose signals are all dropped / entities with a clone still held / alive now
     bulk_released: u32,
     bulk_held: u32,
@@ -309,7 +315,7 @@ impl<'a> Checker<'a>
             tokens: vec![None; prog.insts.len()], res: [0, 0, 0], res_t_present: true, payloads: HashMap::new(), pending_immediate_drop: None,
             polled: Vec::new(), postponed: Vec::new(), stack: Vec::new(), tree_depth: 0, seq: 0, sender: (DRIVER, 0),
             wr_keys: [Vec::new(), Vec::new()], sigs: vec![(None, 0); 4], doomed_ents: Vec::new(), resolve_uncertain: Vec::new(), fifo: HashMap::new(),
-            gc_guaranteed_this_step: false, in_direct_step: false, bulk_released: 0, bulk_held: 0, bulk_alive: 0, wq: Default::default(), iss_counter: 0, cur_iss: 0, iss_of: HashMap::new(), sys: Default::default(),
+            gc_guaranteed_this_step: false, in_direct_step: false, in_gc: false, sig_harness: [0; 4], deferred_bail: None, bulk_released: 0, bulk_held: 0, bulk_alive: 0, wq: Default::default(), iss_counter: 0, cur_iss: 0, iss_of: HashMap::new(), sys: Default::default(),
         }
     }
 
@@ -406,6 +412,7 @@ impl<'a> Checker<'a>
     /// Next structural event (floating events in front of it are processed).
     fn peek(&mut self) -> Res<Option<&'a Ev>>
     {
+        if let Some(why) = self.deferred_bail.take() { return Err(Stop::Bail(Bail(why))); }
         while self.pos < self.trace.len() && is_floating(&self.trace[self.pos])
         {
             self.floats.push(self.pos);
@@ -697,6 +704,7 @@ impl<'a> Checker<'a>
         }
         self.ents[e].ewr = [None, None];
         self.ents[e].ewr_mask = [0, 0];
+        for k in std::mem::take(&mut self.ents[e].holds) { self.sig_release(k); }
         // children are orphaned, the parent keeps a stale child id
     }
 
@@ -720,6 +728,20 @@ impl<'a> Checker<'a>
         if self.stack.contains(&i) { self.stats.kill_self += 1; }
     }
 
+    /// One clone of signal `k` is gone.
+    fn sig_release(&mut self, k: usize)
+    {
+        if self.sigs[k].1 == 0 { return; }
+        self.sigs[k].1 -= 1;
+        if self.sigs[k].1 == 0
+        {
+            self.stats.sig_zero += 1;
+            if self.in_gc { self.stats.sig_zero_during_gc += 1; }
+            if !(self.in_gc || self.in_direct_step) { self.deferred_bail = Some("last signal clone dropped inside a batch or tree (placement of in-tree collections is unspecified)".into()); }
+            if let Some(e) = self.sigs[k].0 { self.doomed_ents.push(e); }
+        }
+    }
+
     fn guaranteed_gc(&mut self)
     {
         self.stats.guaranteed_gc += 1;
@@ -727,7 +749,12 @@ impl<'a> Checker<'a>
         for k in std::mem::take(&mut self.sys.doomed) { if let Some(s) = self.sys.spawned[k].as_mut() { s.1 = false; } }
         let doomed = std::mem::take(&mut self.doomed_ents);
         let before: Vec<bool> = self.insts.iter().map(|t| t.doomed).collect();
+        // An entity this collection despawns may own the last clone of another signal: that one reached zero *during* the
+        // collection, so the first collection *after* it is the next one. It stays in `doomed_ents` (alive or gone, not
+        // judged) until then.
+        self.in_gc = true;
         for e in doomed { self.despawn_rec(e); }
+        self.in_gc = false;
         // a collection keeps going until nothing is left to collect: reactors released by what it despawned go too
         for (i, t) in self.insts.iter_mut().enumerate() { if t.doomed && t.alive && !t.busy { t.alive = false; if !before[i] { t.chain_doomed = true; } } }
     }
@@ -1944,21 +1971,19 @@ impl<'a> Checker<'a>
                 let k = *k as usize;
                 if self.sigs[k].0.is_some() { return Ok(()); }
                 self.sigs[k] = (Some(slot(self, *s)), 1);
+                self.sig_harness[k] = 1;
             }
-            WOp::SigClone(k) => { let k = *k as usize; if self.sigs[k].1 > 0 { self.sigs[k].1 += 1; } }
+            WOp::SigClone(k) => { let k = *k as usize; if self.sig_harness[k] > 0 { self.sigs[k].1 += 1; self.sig_harness[k] += 1; } }
             WOp::SigDrop(k) =>
             {
                 let k = *k as usize;
-                if self.sigs[k].1 > 0
-                {
-                    self.sigs[k].1 -= 1;
-                    if self.sigs[k].1 == 0
-                    {
-                        if !self.in_direct_step { return bail("last signal clone dropped inside a batch or tree (placement of in-tree collections is unspecified)"); }
-                        self.stats.sig_zero += 1;
-                        if let Some(e) = self.sigs[k].0 { self.doomed_ents.push(e); }
-                    }
-                }
+                if self.sig_harness[k] > 0 { self.sig_harness[k] -= 1; self.sig_release(k); }
+            }
+            WOp::SigMoveInto(k, s) =>
+            {
+                let k = *k as usize;
+                let e = slot(self, *s);
+                if self.ents[e].alive && self.sig_harness[k] > 0 { self.sig_harness[k] -= 1; self.ents[e].holds.push(k); self.stats.sig_moved_into_entity += 1; }
             }
             WOp::TakeStorage(_) => return Err(Stop::Bail(Bail("storage fault is not judged by the lock-step spec".into()))),
             WOp::Syscall(kind, key, input) => self.sys_call(*kind, *key, *input, false, u)?,
@@ -2162,7 +2187,7 @@ impl<'a> Checker<'a>
             {
                 return Err(Stop::Bail(Bail("bulk signals are not collected before other work (not generated)".into())));
             }
-            if (!self.doomed_ents.is_empty() || !self.sys.doomed.is_empty()) && !matches!(step, Step::Direct(WOp::Gc) | Step::Direct(WOp::SigClone(_)) | Step::Direct(WOp::SigDrop(_)) | Step::Direct(WOp::SigPrepare(..)) | Step::Direct(WOp::Reparent(..)) | Step::Direct(WOp::SigBulk(..)) | Step::Update | Step::AppSetup)
+            if (!self.doomed_ents.is_empty() || !self.sys.doomed.is_empty()) && !matches!(step, Step::Direct(WOp::Gc) | Step::Direct(WOp::SigClone(_)) | Step::Direct(WOp::SigDrop(_)) | Step::Direct(WOp::SigPrepare(..)) | Step::Direct(WOp::SigMoveInto(..)) | Step::Direct(WOp::Reparent(..)) | Step::Direct(WOp::SigBulk(..)) | Step::Update | Step::AppSetup)
             {
                 return Err(Stop::Bail(Bail("an entity whose last signal clone was dropped is not collected before other work (placement of in-tree collections is unspecified)".into())));
             }
@@ -2264,7 +2289,8 @@ impl<'a> Checker<'a>
             let m = &self.ents[e];
             if m.alive != *alive
             {
-                if self.doomed_ents.contains(&e) { continue; }
+                // (its collection -- or that of an ancestor -- is pending: the placement of collections is not judged)
+                if self.doomed_ents.contains(&e) || self.has_doomed_ancestor(e) { continue; }
                 if self.sigs.iter().any(|(se, _)| *se == Some(e)) || self.is_descendant_of_signal(e)
                 {
                     if *alive { fail!(self, "C10", "autodespawn-leak", &[], "slot {s} survived although every clone of its signal (or of an ancestor's) was dropped and collected (step {step})"); }
@@ -2437,6 +2463,20 @@ impl<'a> Checker<'a>
             }
         }
         Ok(())
+    }
+
+    fn has_doomed_ancestor(&self, e: EntId) -> bool
+    {
+        let mut cur = self.ents[e].parent;
+        let mut guard = 0;
+        while let Some(p) = cur
+        {
+            if self.doomed_ents.contains(&p) { return true; }
+            cur = self.ents[p].parent;
+            guard += 1;
+            if guard > 16 { break; }
+        }
+        false
     }
 
     fn is_descendant_of_signal(&self, e: EntId) -> bool
